@@ -89,6 +89,47 @@ CLAIMED["C04"] = {
     "likelihoods are reals (NaN excluded).",
 }
 
+CLAIMED["C02"] = {
+    "text": "Proof over the reals (log-values handled through their "
+    "exponential image) that: increment performs exactly the documented "
+    "rectangle step Z += L (X_prev - X) with X = X_prev t(n), t = exp(-1/n) "
+    "or exp(-log(1+1/n)), keeps prior volumes positive and strictly "
+    "decreasing from log X_0 = 0 and maintains the integrator invariant; "
+    "logsubexp and log_integrate_log_trap compute x-y resp. the trapezoid "
+    "sum; finalise, log_posterior_weights, get_logx_live_points and the "
+    "one-pass compute_weights (int and array live-count schedules) equal "
+    "the trapezoid evidence with closing point X=0 and the rectangle "
+    "posterior weights over the same L / X sequences. The links between "
+    "the three computations (same recurrence => same sequence; rectangle "
+    "closed form; shift by c scales Z by e^c and leaves weights unchanged) "
+    "are code-independent lemmas proved in Lean (lemmas/Lib.lean).",
+    "note": "NOT decided: agreement to floating-point accuracy and absence "
+    "of overflow/underflow up to 1e5 (floats are reals here; -inf is the "
+    "image 0). Assumed: exp/log laws (Lean exp_rules), finite-sum "
+    "congruence / positivity lemmas (Lean), numpy cumsum / logaddexp / "
+    "logsumexp / slicing contracts on images; preconditions reported: "
+    "len(samples) >= nlive for the int schedule, expectation in "
+    "{logt, t}.",
+}
+CLAIMED["C16"] = {
+    "text": "Proof that draw_posterior_samples returns rows of the nested "
+    "samples identified by the returned in-range indices; that rejection "
+    "sampling keeps i exactly when log_w[i] - max(log_w) > log U_i with "
+    "U_i in [0,1) (strictly increasing indices; the max-weight sample "
+    "always, zero-weight samples never), that multinomial resampling "
+    "draws exactly n (default int(ESS)) indices with probabilities "
+    "w_i / sum w handed to numpy's generator, that unknown methods raise; "
+    "and that effective_sample_size / effective_n_posterior_samples equal "
+    "Kish's 1 / sum p_i^2. ESS in [1, N] and its shift invariance are Lean "
+    "lemmas over that closed form.",
+    "note": "NOT decided: empirical selection frequencies (statistical: "
+    "they follow from the pinned rule and numpy's generator contract, "
+    "assumed). Preconditions reported: at least one finite weight, no "
+    "+inf/NaN weight. The thin wrapper "
+    "ImportanceNestedSampler.draw_posterior_samples is unverified "
+    "surrounding code (delegates to the function under contract).",
+}
+
 NA = {
     "C06": "statistical calibration over seeds: no pre/post-condition on a "
     "function expresses a distributional claim and no deductive back end "
